@@ -74,7 +74,6 @@ class ConnectableObservable(Observable[_T]):
 
             def dispose() -> None:
                 subscription.dispose()
-                count[0] -= 1
                 is_connected[0] = False
 
             return Disposable(dispose)
